@@ -152,16 +152,31 @@ func Run(out string) {
 			}
 		}
 	}
+	// members with the largest payloads the format allows, chunks that begin and end at block starts
+	for _, n := range []int{65536, 65535, B} {
+		f := bgz.BuildFile([]int{1000, n, 3000}, true, 1, false)
+		for li, l := range [][][2]voff{
+			{{voff{0, 0}, voff{2, 0}}}, {{voff{1, 0}, voff{2, 0}}}, {{voff{0, 500}, voff{2, 0}}}, {{voff{1, 0}, voff{2, 100}}},
+			{{voff{1, 10}, voff{2, 0}}}, {{voff{0, 0}, voff{1, 0}}, {voff{1, 0}, voff{2, 0}}}, {{voff{0, 0}, voff{3, 0}}},
+		} {
+			for bi, buf := range []int{512, 32768, 65536, 131072} {
+				runOne(t, "maxblock", f, l, buf, []int{1, 2}[(li+bi)%2])
+			}
+		}
+	}
 	// real scale: block-size members, chunk boundaries anywhere, buffers small and large
 	for i := 0; i < nrand; i++ {
 		var sh []int
 		for j := 0; j < 2+r.Intn(4); j++ {
-			sh = append(sh, []int{B, B - 1, 1, 0, 5000, 100 + r.Intn(3000)}[r.Intn(6)])
+			sh = append(sh, []int{B, B - 1, 1, 0, 5000, 100 + r.Intn(3000), 65536, 65535}[r.Intn(8)])
 		}
 		f := bgz.BuildFile(sh, r.Intn(2) == 0, 1, r.Intn(2) == 0)
 		var pts []voff
 		for m, mi := range f.Members {
 			for _, b := range []int{0, mi.Len / 2, mi.Len} {
+				if b > 65535 {
+					continue // the end of a member with the largest payload is the start of the next one
+				}
 				pts = append(pts, voff{m, b})
 			}
 			if mi.Len > 2 {
